@@ -222,6 +222,10 @@ func WSFrames(ws any) []string { return nil }
 // wait while the harness goes on.
 func OnBlock(fn func() bool) {}
 
+// TimeoutsFired is the number of time.After cases the engine let fire because
+// nothing else could happen (engine only; natively the clock is real).
+func TimeoutsFired() int { return 0 }
+
 // WSReader registers the function the engine's ReadMessage model asks for the
 // next incoming frame of a connection: state 0 = frame, 1 = nothing to read
 // yet (the reader blocks), 2 = closed by the peer. Natively the harness writes
@@ -230,6 +234,10 @@ func WSReader(ws any, fn func() ([]byte, int)) {}
 
 // WSClosed reports whether Close was called on the connection (engine only).
 func WSClosed(ws any) bool { return false }
+
+// DropSpawnedFrom discards the goroutine thunks recorded since Spawned()
+// returned n (engine only).
+func DropSpawnedFrom(n int) {}
 
 // DropSpawned discards goroutine thunks recorded so far (engine only).
 func DropSpawned() {}
